@@ -166,12 +166,22 @@ namespace lang
         template <class... Args>
         constexpr void emplace(pointer const pos, Args&&... args)
         {
-            auto key = std::distance(begin(), pos);
+            size_type key = std::distance(begin(), pos);
 
             if (size_ >= capacity_)
                 raise("No capacity left!");
 
-            replace(data_[key], value_type(args...));
+            if (key > size_)
+                raise("Key larger than size!");
+
+            value_type value(std::forward<Args>(args)...);
+
+            for (size_type i = size_; i > key; --i)
+            {
+                replace(data_[i], std::forward<value_type>(data_[i - 1]));
+            }
+
+            replace(data_[key], std::forward<value_type>(value));
             ++size_;
         }
 
